@@ -32,7 +32,8 @@ META = {
 NS = 'Scalibr.C16.'
 THEOREMS = [NS + t for t in [
     'C16_confluent', 'C16_tasks_confluent', 'C16_final_partial', 'C16_schedule_independent_partial', 'C16_spec_partial', 'C16_patchcmp_order_partial',
-    'C16_patchcmp_order_parsed_partial', 'C16_patchcmp_order_unparsed', 'C16_patchcmp_mixed_cycle', 'C16_patchcmp_needs_updates', 'C16_final_needs_cmpeq',
+    'C16_patchcmp_order_parsed_partial', 'C16_patchcmp_order_unparsed', 'C16_patchcmp_mixed_cycle', 'C16_patchcmp_needs_updates', 'C16_compare_total', 'C16_cmpeq_holds',
+    'C16_final_formerly_order_dependent',
     'C16_terminates_partial', 'C16_terminates_needs_finite',
     'C16_cache_inv', 'C16_cache_once', 'C16_cache_linearizable_partial', 'C16_cache_realtime', 'C16_cache_setmap_overlap_not_linearizable',
     'C16_cache_provenance', 'C16_cache_content', 'C16_cache_shared', 'C16_ticker_guarded', 'C16_cache_guarded']]
@@ -276,19 +277,20 @@ def run(ctx):
                        '(C16_cache_setmap_overlap_not_linearizable, replayed on the real cache from the corpus)',
                        'lock discipline of RequestCache.cache/.calls is a kernel-checked table theorem (C16_cache_guarded); requestCacheCall.val/.err are synchronised by sync.WaitGroup, not by mu: '
                        'race freedom there is OBSERVED (all enumerated cache schedules run under the race detector), not proved',
-                       'CmpEqImpliesEq (Compare-equal patches are identical) and "all target versions parse or none does" are explicit hypotheses of C16_final_partial, evaluated on every universe. '
-                       'Where CmpEqImpliesEq fails (order still holds) the property itself still demands one result per input: the check compares all delivery orders of a universe with each other; '
-                       'the unchanged code fails that (KNOWN FINDING C16/compare-equal-distinct-patches, witness corpus/C16/alias-compare-equal.case). On those universes the check additionally '
-                       'demands the specification\'s result UP TO Compare-equality (sequence of (name, VersionTo) updates and fixed/introduced counts) — a stream check without a Lean theorem behind it. '
-                       'Mixed parsable/unparsable target versions (comparator cyclic, not produced by today\'s strategies) stay a recorded hypothesis violation (coverage.hypothesis_violations)',
+                       'the ONE remaining hypothesis of C16_final_partial / C16_schedule_independent_partial / C16_spec_partial: the per-version comparison of step 5 is a strict weak order on the target '
+                       'versions present — proved for all-parsable versions over a semantic order that is one (npm) and for all-unparsable versions (relax), an ASSUMPTION for Maven (C07: mavenutil\'s '
+                       'comparison is not transitive in general), false for mixed parsable/unparsable forms (C16_patchcmp_mixed_cycle; not produced by today\'s strategies; such universes are '
+                       'generated on purpose and recorded in coverage.hypothesis_violations). CmpEqImpliesEq is no longer a hypothesis: since fix 09778cd0 Patch.Compare returns 0 only for identical '
+                       'patches (C16_compare_total, C16_cmpeq_holds); the alias universes (former known finding C16/compare-equal-distinct-patches) are judged strictly — one result per universe '
+                       'under all delivery orders and free runs, equal to the specification',
                        'ConstructPatches is modelled for manifests with distinct requirement names, no new keys, vulnerabilities without subgraphs',
                        'version grammar of the universes: <major>.0.0 parses, ^x / ~x / ranges / 1x do not (asserted against deps.dev npm semver at generator start)',
                        'ticker table: accesses are syntactic (x.f with x a walkContext receiver/parameter/local); aliasing through other pointers is not tracked']
     ctx.rule = ('twins: 12 universes in which DISTINCT attempts produce the IDENTICAL patch (same manifest => same vulnerabilities) and then diverge — different follow-up id lists, different '
                 'final versions, twins again one level down, failing / no-op follow-ups; grouped and per-vuln branch, concrete and relax-style versions; random universes are manifest-consistent '
-                '(equal updates => equal vulnerability sets) so twins occur there too. aliases: 4 universes with one package required twice (npm alias), whose fixes are Compare-equal but '
-                'different patches (CmpEqImpliesEq false by a realistic route): per universe the results of ALL delivery orders and free runs are compared with each other '
-                '(known finding C16/compare-equal-distinct-patches on the unchanged code) and, up to Compare-equality, with the specification (checked on the stream, not proved). '
+                '(equal updates => equal vulnerability sets) so twins occur there too. aliases: 4 universes with one package required twice (npm alias), whose fixes agree on keys 1-5 of '
+                'Patch.Compare but differ (Fixed ids, requirement Type) and are separated by key 6 since fix 09778cd0: per universe the results of ALL delivery orders and free runs must be equal '
+                'to each other and to the specification. '
                 'chains: 48 (quick) / 144 (thorough) universes with one initial vulnerability whose fixes introduce new ones 1..8 levels deep, fan-out 1..3 per level, per-vuln (relax) '
                 'and grouped (override) branch, attempts over up to 9 (per-vuln) / 25 (grouped) accumulated ids — delivery orders enumerated with a cap AND run ungated under the Go scheduler '
                 '(GOMAXPROCS 1 and 16, 2/5 repetitions with Gosched/sleep perturbation before every attempt reads its ids), also under -race one case at a time (halt_on_error: a report is '
